@@ -18,7 +18,7 @@ EXPLANATION = (
     "parked in a queue is re-validated when used, or purged whenever a trial becomes stopped; S6 resume targets are paused "
     "trials (shared with C01-S3), and the synchronous schedulers PAUSE every trial their promotion path may resume: the guard "
     "of DEHB's PAUSE decision contains no condition the resume path in _suggest does not test, synchronous Hyperband pauses "
-    "every trial that reaches its milestone. NOT decided: the speculative early-removal scoring.")
+    "every trial that reaches its milestone. S5 also: PBT marks a trial as stopped before every STOP decision it returns (what the clone-source filter relies on). NOT decided: the speculative early-removal scoring.")
 
 FLOOR = {"S1": 4, "S2": 3, "S3": 2, "S4": 4, "S5": 2, "S6": 3, "S7": 3}
 
